@@ -2554,27 +2554,41 @@ class SEVM:
 
             elif to == SHA256_PRECOMPILE:
                 exit_code = ONE
-                f_sha256 = Function(
-                    f"f_sha256_{arg_size}", BitVecSorts[arg_size], BitVecSort256
-                )
+                # note: arg_size is in bytes
+                if arg_size == 0:
+                    ret = ByteVec(Function("f_sha256_0", BitVecSort256)())
+                else:
+                    f_sha256 = Function(
+                        f"f_sha256_{arg_size}", BitVecSorts[arg_size * 8], BitVecSort256
+                    )
 
-                unwrapped = arg.unwrap()
-                wrapped = (
-                    unwrapped if is_bv(unwrapped) else bytes_to_bv_value(unwrapped)
-                )
-                ret = ByteVec(f_sha256(wrapped))
+                    unwrapped = arg.unwrap()
+                    wrapped = (
+                        unwrapped
+                        if is_bv(unwrapped)
+                        else bytes_to_bv_value(unwrapped)
+                    )
+                    ret = ByteVec(f_sha256(wrapped))
 
             elif to == RIPEMD160_PRECOMPILE:
                 exit_code = ONE
-                f_ripemd160 = Function(
-                    f"f_ripemd160_{arg_size}", BitVecSorts[arg_size], BitVecSort160
-                )
+                # note: arg_size is in bytes
+                if arg_size == 0:
+                    ret = ByteVec(uint256(Function("f_ripemd160_0", BitVecSort160)()))
+                else:
+                    f_ripemd160 = Function(
+                        f"f_ripemd160_{arg_size}",
+                        BitVecSorts[arg_size * 8],
+                        BitVecSort160,
+                    )
 
-                unwrapped = arg.unwrap()
-                wrapped = (
-                    unwrapped if is_bv(unwrapped) else bytes_to_bv_value(unwrapped)
-                )
-                ret = ByteVec(uint256(f_ripemd160(wrapped)))
+                    unwrapped = arg.unwrap()
+                    wrapped = (
+                        unwrapped
+                        if is_bv(unwrapped)
+                        else bytes_to_bv_value(unwrapped)
+                    )
+                    ret = ByteVec(uint256(f_ripemd160(wrapped)))
 
             elif to == IDENTITY_PRECOMPILE:
                 exit_code = ONE
@@ -2583,17 +2597,23 @@ class SEVM:
             elif to == MODEXP_PRECOMPILE:
                 exit_code = ONE
                 modulus_size = ex.int_of(arg.get_word(64))
-                f_modexp = Function(
-                    f"f_modexp_{arg_size}_{modulus_size}",
-                    BitVecSorts[arg_size],
-                    BitVecSorts[modulus_size],
-                )
+                # note: arg_size and modulus_size are in bytes; the result has the size of the modulus
+                if arg_size == 0 or modulus_size == 0:
+                    ret = ByteVec()
+                else:
+                    f_modexp = Function(
+                        f"f_modexp_{arg_size}_{modulus_size}",
+                        BitVecSorts[arg_size * 8],
+                        BitVecSorts[modulus_size * 8],
+                    )
 
-                unwrapped = arg.unwrap()
-                wrapped = (
-                    unwrapped if is_bv(unwrapped) else bytes_to_bv_value(unwrapped)
-                )
-                ret = ByteVec(f_modexp(wrapped))
+                    unwrapped = arg.unwrap()
+                    wrapped = (
+                        unwrapped
+                        if is_bv(unwrapped)
+                        else bytes_to_bv_value(unwrapped)
+                    )
+                    ret = ByteVec(f_modexp(wrapped))
 
             elif to == ECADD_PRECOMPILE:
                 exit_code = ONE
